@@ -12,8 +12,8 @@
 (* trim_open_zero_length_emptied.                                                      *)
 EXTENDS PathUtils, TLC, Json, IOUtils
 
-VARIABLES l
-vars == <<l>>
+VARIABLES l, st
+vars == <<l, st>>
 
 Tr == ndJsonDeserialize(IOEnv.TRACE)
 Ev == Tr[l]
@@ -33,8 +33,21 @@ CallFails(p, x) ==
     [] x.f = "LEN" -> IF x.lo <= LenHi(p, x.c = 1, x.s) /\ x.hi >= LenLo(p, x.c = 1, x.s) THEN {} ELSE {"length_equation"}
     [] OTHER -> {"unknown_call"}
 
+(* counters kept along the trace and printed with its last event (vacuity evidence): calls judged, TrimCollinear  *)
+(* calls whose input is in the clean class, RDP / SimplifyPath calls that removed something, Ellipse calls          *)
+Cnt(p, calls) ==
+  LET n(S) == Cardinality(S)  I == 1..Len(calls)
+  IN <<n(I),
+       n({i \in I : calls[i].f = "TC" /\ Clean(p, calls[i].c = 1)}),
+       n({i \in I : calls[i].f = "RDP" /\ calls[i].out # p}),
+       n({i \in I : calls[i].f = "SP" /\ calls[i].out # p}), 0>>
+Add5(a, b) == [i \in 1..5 |-> a[i] + b[i]]
+AtEnd(s) == IF l = Len(Tr) THEN PrintT(<<"NOTE", "STATS", l, s>>) ELSE TRUE
+
 TPath ==
   /\ Ev.e = "Path"
+  /\ st' = Add5(st, Cnt(Ev.p, Ev.calls))
+  /\ AtEnd(st')
   /\ LET p == Ev.p
          F == [i \in 1..Len(Ev.calls) |-> CallFails(p, Ev.calls[i])]
          cl == UNION {F[i] : i \in 1..Len(F)}
@@ -53,9 +66,11 @@ EllFails(ev) ==
 
 TEll ==
   /\ Ev.e = "Ell"
+  /\ st' = Add5(st, <<0, 0, 0, 0, 1>>)
+  /\ AtEnd(st')
   /\ \A c \in EllFails(Ev) : Report(c, <<0, 1>>)
 
-Init == l = 1
+Init == l = 1 /\ st = <<0, 0, 0, 0, 0>>
 Next == /\ l <= Len(Tr)
         /\ l' = l + 1
         /\ (TPath \/ TEll)
